@@ -220,6 +220,8 @@ def run(ctx):
                               "files": {k: mc.tree_obj(t) for k, t in small["files"].items()},
                               "suppress_key_warnings": bad[0]["suppress"]},
             "impl_output_unshrunk": bad[0]["impl"], "count": len(bad),
+            "result_class": {"hang": "HANG (no answer within the per-project time limit)", "panic": "PANIC"}.get(
+                bad[0]["impl"].get("kind"), "WRONG-ANSWER"),
             "explanation": "spec_C03 (Parser/MergeCheck.v) is false on the implementation's output: some locale is not "
                            "resolved to the first locale of its inherits walk that defines the key (else the default), or "
                            "compute() is not the partition of the non-defining locales by that target, or the result/err "
@@ -250,7 +252,8 @@ def run(ctx):
         "directed_rule": "Then directed projects: every pair of values of the quantifier's dimensions (evidence field `pairwise`) that the above left empty and that is feasible is filled by a project built for it (checks/cov_merge.py), run on both builds.",
         "samples": [{"project": m["project"], "impl": m["impl"]["raw"][:600]} for m in metas[:2] + metas[-2:]],
         "traces_validated_against_impl": len(metas), "disagreements": len(dis), "spec_failures_on_impl": len(bad),
-        "skipped_outside_model": len(skipped), "panics": len(panics), "error_results": sum(1 for m in metas if m["impl"].get("kind") not in ("ok", "panic")),
+        "skipped_outside_model": len(skipped), "panics": len(panics), "hangs": sum(1 for m in metas if m["impl"].get("kind") == "hang"),
+        "not_run_after_hangs": getattr(ctx, "not_run", 0), "error_results": sum(1 for m in metas if m["impl"].get("kind") not in ("ok", "panic")),
         "input_distribution": hist, "audit_problems": problems, "pairwise": pw,
     }, assumptions=[
         "leaf values are opaque: written as the literal v<id> (every 7th with an interpolated variable), identified in the "
